@@ -12,6 +12,7 @@ import (
 	"crypto/tls"
 	"fmt"
 	"log/slog"
+	mrand "math/rand"
 	"net"
 	"sync/atomic"
 	"testing"
@@ -39,7 +40,7 @@ func TestReproResidue(t *testing.T) {
 				c.Close()
 				continue
 			}
-			msg := append(rec(1, true, u16(0)), rec(4, true, u16(15))...) // NextProto, AEAD 15
+			msg := append(rec(1, true, u16(0)), rec(4, true, u16(15))...)   // NextProto, AEAD 15
 			msg = append(msg, rec(5, false, []byte("0123456789abcdef"))...) // Cookie
 			msg = append(msg, rec(2, true, u16(2))...)                      // Error: internal server error
 			c.Write(msg)
@@ -57,6 +58,32 @@ func TestReproResidue(t *testing.T) {
 	fmt.Printf("call 2: err=%v cookies=%d c2s=%v s2c=%v (connections so far %d)\n", err2, len(d2.Cookie), d2.C2sKey, d2.S2cKey, n2)
 	if err1 != nil && err2 == nil && n2 == n1 {
 		fmt.Println("REPRODUCED: the call after a failed exchange returned the failed exchange's cookie without a new exchange")
+	} else {
+		fmt.Println("NOT REPRODUCED")
+	}
+}
+
+// Stand-alone reproduction of the second finding (C20-quic-dial-defaults): over
+// QUIC/SCION exchangeKeys discards the Data that dialQUIC returns, so a peer that
+// names neither server nor port leaves Data.Server "" and Data.Port 0 (the
+// property: by default the key-exchange host and the standard NTP port), and
+// whatever an earlier exchange set stays in force for the next one.
+//
+//	cd /verif/harness && go1.26 test -tags verif -count 1 -vet=off -v -run TestReproQuicDefaults ./c20
+func TestReproQuicDefaults(t *testing.T) {
+	n := allocNet(t, 300)
+	defer n.close()
+	h := &logCapture{}
+	w := &worker{t: t, net: n, logh: h, log: slog.New(h)}
+	q := newQPeer(selfSigned(t), n)
+	defer q.ln.Close()
+	q.resetCase(1, mrand.New(mrand.NewSource(1)))
+	f := q.newFetcher(w)
+	q.setPlan(mscript{Alpn: "ntske/1", Recs: []string{"np", "a15", "ck", "eom"}, Cut: "none"})
+	d, err := f.FetchData(context.Background())
+	fmt.Printf("exchange 1 (NextProto, AEAD 15, Cookie, End): err=%v Server=%q Port=%d\n", err, d.Server, d.Port)
+	if err == nil && d.Server == "" && d.Port == 0 {
+		fmt.Println("REPRODUCED: no default destination over QUIC")
 	} else {
 		fmt.Println("NOT REPRODUCED")
 	}
